@@ -4,7 +4,7 @@
     the end as the remaining obligation; it is not proved.) *)
 From Coq Require Import List Bool Lia.
 From Patronus Require Import EvalImpl Encoding Bmc SysExec ReachSpec ExprLemmas BVLemmas EvalProofs McBasics ScriptProofs
-     EncodingBasics EncodingFaithful EncodingNew ReachBmcProofs.
+     EncodingBasics EncodingFaithful EncodingNew ReachEnum ReachBmcProofs.
 Import ListNotations.
 Open Scope N_scope.
 
@@ -182,4 +182,153 @@ Proof.
     by (intros k bs; apply (bads_bool_valued sy nm Hwf)).
   assert (Hne : s_bads (e_sys (enc_new sy nm)) <> []) by (cbn; rewrite Eb; discriminate).
   specialize (H Hbool Hne k_max 0%nat []). unfold script in H. cbn [unrolls] in H. rewrite app_nil_r in H. exact H.
+Qed.
+
+(** ** the loop never misses a counterexample *)
+Lemma signals_at_spec en : forall es k l, signals_at en es k = Some l ->
+  (forall a, In a l -> exists e, In e es /\ get_signal_at en e k = Some a) /\
+  (forall e, In e es -> exists a, In a l /\ get_signal_at en e k = Some a).
+Proof.
+  induction es as [|e r IH]; intros k l H; cbn [signals_at] in H.
+  - inversion H; subst. split; [intros a []|intros e []].
+  - destruct (get_signal_at en e k) as [s|] eqn:Eg; [|discriminate].
+    destruct (signals_at en r k) as [l'|] eqn:Er; [|discriminate]. inversion H; subst.
+    destruct (IH k l' Er) as [H1 H2]. split.
+    + intros a [<-|Ha]; [exists e; split; [now left|assumption]|].
+      destruct (H1 a Ha) as (e' & He' & Hg). exists e'. split; [now right|assumption].
+    + intros e' [<-|He']; [exists s; split; [now left|assumption]|].
+      destruct (H2 e' He') as (a & Ha & Hg). exists a. split; [now right|assumption].
+Qed.
+
+Lemma tau_of_wf en (Hb : enc_basic en) j trace : (forall r, In r trace -> env_wf r) ->
+  forall ps, env_wf (tau_of en j trace ps).
+Proof.
+  intros Htr. induction ps as [|[e k] r IH]; [apply env0_wf|].
+  cbn [tau_of fold_right fst snd]. fold (tau_of en j trace r).
+  destruct (sig_sym en e k) as [s|] eqn:Es; [|assumption].
+  destruct (sig_sym_type en e k s Es) as [Ht Hsym].
+  apply assign_wf; try assumption.
+  - unfold at_step. destruct (nth_in_or_default (N.to_nat (k - j)) trace env0) as [Hin|Hd]; [now apply Htr|rewrite Hd; apply env0_wf].
+  - apply (signal_wt en Hb). eapply sig_sym_signal; eassumption.
+  - now symmetry.
+Qed.
+
+Section NoMiss.
+  Variable v : variant.
+  Variable solver_sat : list cmd -> list expr -> list expr -> bool.
+  Hypothesis solver_correct : forall sc asserts assumps,
+    solver_sat sc asserts assumps = true <-> exists sigma0, is_model sc asserts assumps sigma0.
+  Variables (sy : sys) (nm : expr -> string).
+  Hypothesis Hwf : sys_wf sy = true.
+  Hypothesis Hn : names_ok (enc_new sy nm) = true.
+  Let en := enc_new sy nm.
+  Hypothesis Hck : forall n, script_check [] (script v en 0 n) = true.
+
+  (** at the depth of a counterexample the query of some bad state is satisfiable *)
+  Lemma reached_is_sat i rho0 frees asserts bs :
+    length frees = i -> is_initial sy rho0 ->
+    (forall r, In r (run_from sy rho0 frees) -> env_wf r) ->
+    forallb (constraints_hold sy) (run_from sy rho0 frees) = true ->
+    some_bad sy (last (run_from sy rho0 frees) env0) = true ->
+    (forall a, In a asserts -> exists c m, In c (s_constraints sy) /\ (m <= i)%nat /\
+                                           get_signal_at en c (N.of_nat m) = Some a) ->
+    signals_at en (s_bads sy) (N.of_nat i) = Some bs ->
+    existsb (fun b => solver_sat (script v en 0 i) asserts [b]) bs = true.
+  Proof.
+    intros Hlen Hinit Hwfr Hcons Hbad Hass Hbs.
+    pose proof (enc_new_basic sy nm Hwf) as Hb. fold en in Hb.
+    pose proof (names_ok_inj en Hn) as Hinj.
+    set (trace := run_from sy rho0 frees) in *.
+    set (sigma0 := tau en 0 i trace).
+    assert (Hcoh := coherent sy nm Hwf Hinj 0 i rho0 frees Hlen (fun _ => Hinit)). fold en trace in Hcoh.
+    assert (Hw0 : env_wf sigma0) by (apply (tau_of_wf en Hb); assumption).
+    (* the values of the observable signals under the evaluated script *)
+    assert (Hfaith : forall e k s, observable sy e -> (k <= i)%nat -> get_signal_at en e (N.of_nat k) = Some s ->
+               same_val (script_eval sigma0 (script v en 0 i)) s (nth k trace env0) e).
+    { intros e k s Hobs Hk Hg.
+      pose proof (faithful_final sy nm v 0 rho0 frees sigma0 Hwf Hn (fun _ => Hinit)) as F.
+      cbn zeta in F. rewrite Hlen in F. fold en trace in F.
+      specialize (F (Hck i)).
+      assert (Hd : forall nm' t e0 k0, In (DeclareConst nm' t) (script v en 0 i) -> 0 <= k0 <= 0 + N.of_nat i ->
+                     sig_sym en e0 k0 = Some (mk_sym nm' t) ->
+                     same_val sigma0 (mk_sym nm' t) (nth (N.to_nat (k0 - 0)) trace env0) e0).
+      { intros nm' t e0 k0 _ Hk0 Hs. apply (tau_spec en Hb 0 i trace Hcoh); [apply in_steps; lia|assumption]. }
+      specialize (F Hd e (N.of_nat k) s Hobs ltac:(lia) Hg).
+      replace (N.to_nat (N.of_nat k - 0)) with k in F by lia. exact F. }
+    (* some bad state holds at the last step *)
+    unfold some_bad in Hbad. apply existsb_exists in Hbad. destruct Hbad as (b & Hbin & Hhb).
+    destruct (proj2 (signals_at_spec en _ _ _ Hbs) b Hbin) as (sb & Hsb & Hgb).
+    apply existsb_exists. exists sb. split; [assumption|]. apply solver_correct. exists sigma0.
+    split; [assumption|].
+    assert (Hlast : last trace env0 = nth i trace env0).
+    { unfold trace. rewrite <- Hlen. clear. revert rho0. induction frees as [|f r IH]; intros rho0; [reflexivity|].
+      cbn [run_from length nth]. rewrite <- IH. destruct (run_from sy (next_env sy rho0 f) r) eqn:E; [destruct r; discriminate|reflexivity]. }
+    split.
+    - apply forallb_forall. intros a Ha. destruct (Hass a Ha) as (c & m & Hc & Hm & Hg).
+      destruct (Hfaith c m a ltac:(unfold observable; tauto) Hm Hg) as [Hv _]. unfold holds. rewrite Hv.
+      assert (Hin : In (nth m trace env0) trace).
+      { apply nth_In. unfold trace. rewrite (run_len sy). lia. }
+      rewrite forallb_forall in Hcons. specialize (Hcons _ Hin). unfold constraints_hold in Hcons.
+      rewrite forallb_forall in Hcons. apply (Hcons c Hc).
+    - cbn [forallb]. rewrite andb_true_r.
+      destruct (Hfaith b i sb ltac:(unfold observable; tauto) (le_n i) Hgb) as [Hv _]. unfold holds. rewrite Hv, <- Hlast. exact Hhb.
+  Qed.
+
+  Lemma loop_no_miss j rho0 frees :
+    length frees = j -> is_initial sy rho0 ->
+    (forall r, In r (run_from sy rho0 frees) -> env_wf r) ->
+    forallb (constraints_hold sy) (run_from sy rho0 frees) = true ->
+    some_bad sy (last (run_from sy rho0 frees) env0) = true ->
+    forall fuel i asserts, (i <= j <= i + fuel)%nat ->
+      (forall a, In a asserts -> exists c m, In c (s_constraints sy) /\ (m < i)%nat /\
+                                             get_signal_at en c (N.of_nat m) = Some a) ->
+      bmc_loop v solver_sat en true (script v en 0 i) asserts (N.of_nat i) fuel <> BmcSuccess.
+  Proof.
+    intros Hlen Hinit Hwfr Hcons Hbad. induction fuel as [|fuel IH]; intros i asserts Hij Hass; cbn [bmc_loop];
+      destruct (signals_at en (s_constraints (e_sys en)) (N.of_nat i)) as [cs|] eqn:Ec; try discriminate;
+      destruct (signals_at en (s_bads (e_sys en)) (N.of_nat i)) as [bs|] eqn:Eb; try discriminate.
+    all: assert (Hass' : forall a, In a (asserts ++ cs) -> exists c m, In c (s_constraints sy) /\ (m <= i)%nat /\
+                                     get_signal_at en c (N.of_nat m) = Some a)
+        by (intros a Ha; apply in_app_or in Ha; destruct Ha as [Ha|Ha];
+            [destruct (Hass a Ha) as (c & m & Hc & Hm & Hg); exists c, m; split; [assumption|]; split; [lia|assumption]
+            |destruct (proj1 (signals_at_spec en _ _ _ Ec) a Ha) as (c & Hc & Hg); exists c, i; auto]).
+    - assert (i = j) by lia. subst i.
+      rewrite (reached_is_sat j rho0 frees (asserts ++ cs) bs Hlen Hinit Hwfr Hcons Hbad Hass' Eb). discriminate.
+    - destruct (existsb (fun b => solver_sat (script v en 0 i) (asserts ++ cs) [b]) bs) eqn:Eh; [discriminate|].
+      destruct (Nat.eq_dec i j) as [->|Hne].
+      + rewrite (reached_is_sat j rho0 frees (asserts ++ cs) bs Hlen Hinit Hwfr Hcons Hbad Hass' Eb) in Eh. discriminate.
+      + replace (script v en 0 i ++ unroll v en 0 (N.of_nat i)) with (script v en 0 (S i))
+          by (unfold script; rewrite unrolls_snoc, app_assoc; now rewrite N.add_0_l).
+        replace (N.of_nat i + 1) with (N.of_nat (S i)) by lia.
+        apply IH; [lia|]. intros a Ha. destruct (Hass' a Ha) as (c & m & Hc & Hm & Hg). exists c, m. split; [assumption|]. split; [lia|assumption].
+  Qed.
+
+  (** if a bad state is reachable within the bound, the loop does not answer "success"
+      (individual checking; the joint mode gives the same result by [bmc_loop_modes]) *)
+  Theorem bmc_no_miss k_max j : (j <= k_max)%nat -> reach_at sy j ->
+    bmc_model v solver_sat sy nm true k_max <> BmcSuccess.
+  Proof.
+    intros Hj (trace & (rho0 & frees & -> & Hinit & Hwfr & Hcons) & Hlen & Hbad).
+    rewrite (run_len sy) in Hlen. unfold bmc_model.
+    destruct (s_bads sy) as [|b0 r0] eqn:Eb.
+    - unfold some_bad in Hbad. rewrite Eb in Hbad. discriminate.
+    - pose proof (loop_no_miss j rho0 frees ltac:(lia) Hinit Hwfr Hcons Hbad k_max 0%nat [] ltac:(lia)) as H.
+      unfold script in H. cbn [unrolls] in H. rewrite app_nil_r in H. apply H. intros a [].
+  Qed.
+End NoMiss.
+
+Theorem bmc_no_miss_final (solver_sat : list cmd -> list expr -> list expr -> bool) :
+  (forall sc asserts assumps,
+      solver_sat sc asserts assumps = true <-> exists sigma0, is_model sc asserts assumps sigma0) ->
+  forall sy nm k_max j individually,
+    sys_wf sy = true -> names_ok (enc_new sy nm) = true -> init_reads_ok (enc_new sy nm) ->
+    (j <= k_max)%nat -> reach_at sy j ->
+    bmc_model Fixed solver_sat sy nm individually k_max <> BmcSuccess.
+Proof.
+  intros Hsolver sy nm k_max j individually Hwf Hn Hir Hj Hr.
+  assert (Hck : forall n, script_check [] (script Fixed (enc_new sy nm) 0 n) = true)
+    by (intros n; apply wf_fixed_final; auto).
+  pose proof (bmc_no_miss Fixed solver_sat Hsolver sy nm Hwf Hn Hck k_max j Hj Hr) as H.
+  destruct individually; [exact H|].
+  rewrite <- (bmc_modes_agree_final solver_sat Hsolver sy nm k_max Hwf Hn Hir). exact H.
 Qed.
